@@ -52,9 +52,15 @@ class ScenDevice(CliDevice):
         out = self._execute_inner(raw)
         if self.withhold is not None and raw.decode("utf-8", "replace").strip() == self.withhold[0]:
             n = self.withhold[1]
+            tail = self.withhold[2] if len(self.withhold) > 2 else b""
             self.withhold = None
-            self.withheld, out = out[n:], out[:n]
+            self.withheld, out = out[n:], out[:n] + tail      # tail: e.g. the beginning of an escape sequence the device never completes
         return out
+
+    def new_session(self):
+        """the connection was dropped and a new one is being made: nothing of the old session is pending"""
+        self.linebuf.clear()
+        self.withheld, self.withhold, self.asking = b"", None, None
 
     def release(self) -> bytes:
         """the device resumes printing what it had withheld"""
@@ -113,9 +119,10 @@ class Scenario:
     echo_junk: Optional[dict] = None   # rough mode: {"seed": n} extra bytes the device interleaves with the echoed input
     cut_at: Optional[List[int]] = None  # cut the global output stream exactly at these absolute offsets (overrides cuts)
     banner: bytes = b""
+    commandeer: bool = False     # a GenericDriver opens the connection, the platform driver takes it over with commandeer()
 
     def describe(self):
-        d = {k: getattr(self, k) for k in ("platform", "stack", "hostname", "user", "ret", "rough", "depth", "cuts", "ops", "outputs", "questions", "trailing", "initial_prompt", "decor", "echo_junk", "cut_at", "prompts")}
+        d = {k: getattr(self, k) for k in ("platform", "stack", "hostname", "user", "ret", "rough", "depth", "cuts", "ops", "outputs", "questions", "trailing", "initial_prompt", "decor", "echo_junk", "cut_at", "prompts", "commandeer")}
         d["nl"] = self.nl.decode("latin1")
         d["cuts"] = cuts_wire(self.cuts)
         d["banner"] = self.banner.decode("latin1")
@@ -199,6 +206,16 @@ class _JunkEcho:
         return "".join(self.rng.choice(self.alphabet) for _ in range(n)).encode() + bytes([b])
 
 
+class _NullDevice:
+    """device of a driver object that never opens its own transport"""
+
+    def connect(self):
+        return b""
+
+    def on_write(self, data):
+        return b""
+
+
 class _Recorder:
     """what the transport actually receives from the device (after optional decoration)"""
 
@@ -266,7 +283,13 @@ def run_real(sc: Scenario) -> RunResult:
     res.decorator = decorator
     kw = dict(comms_return_char=sc.ret, comms_roughly_match_inputs=sc.rough)
     cuts = CutAt(sc.cut_at) if sc.cut_at is not None else CutList(sc.cuts)
-    conn, t = make_conn(sc.platform, wired, stack=sc.stack, cuts=cuts, **kw)
+    first = None
+    if sc.commandeer:
+        # a GenericDriver makes the connection (console server style); the platform driver takes its transport over
+        first, t = make_conn("generic", wired, stack=sc.stack, cuts=cuts, **kw)
+        conn, _unused = make_conn(sc.platform, _NullDevice(), stack=sc.stack, **kw)
+    else:
+        conn, t = make_conn(sc.platform, wired, stack=sc.stack, cuts=cuts, **kw)
     if sc.depth is not None:
         conn.comms_prompt_search_depth = sc.depth
     res.conn = conn
@@ -279,6 +302,18 @@ def run_real(sc: Scenario) -> RunResult:
             return (r.result, r.raw_result, r.failed, r.channel_input)
         return r
 
+    def reopen():
+        """what happens after an operation timed out: the timeout handler closed the TRANSPORT (not the channel); the user calls
+        open() again on the same object; the device starts a new session and prints its prompt at once"""
+        conn.transport.close()
+        dev.new_session()
+        dev.initial_prompt = True
+        t.buf.clear()
+        # the new session shows its prompt at once; an on_open would ask for a second one and leave it unread in front of the next
+        # get_prompt (a session out of step is outside the quantifier), so the re-opened connection has none -- the session is
+        # already prepared as far as the simulated device is concerned
+        conn.on_open = None
+
     def abandoned(op):
         """the operation was given up while the device was silent in the middle of its output (a timeout with the connection
         kept, a cancelled task): the device then prints the rest; the NEXT operations must be exact again"""
@@ -288,11 +323,20 @@ def run_real(sc: Scenario) -> RunResult:
         return ("ABANDONED", b"", False, op[1])
 
     async def go_async():
-        await conn.open()
+        if first is not None:
+            await first.open()
+            await conn.commandeer(first, execute_on_open=True)
+        else:
+            await conn.open()
         for op in sc.ops:
             res.unread_before.append(bytes(t.buf))
+            if op[0] == "reopen":
+                reopen()
+                await conn.open()
+                res.op_results.append(("REOPENED", b"", False, ""))
+                continue
             if op[0] == "abandon":
-                dev.withhold = (op[1].strip(), op[2])
+                dev.withhold = (op[1].strip(), op[2], *((op[3].encode("latin1"),) if len(op) > 3 else ()))
                 try:
                     await conn.send_command(op[1])
                 except SimStall:
@@ -303,11 +347,20 @@ def run_real(sc: Scenario) -> RunResult:
             res.op_results.append(rec(await _do(conn, op, True)))
 
     def go_sync():
-        conn.open()
+        if first is not None:
+            first.open()
+            conn.commandeer(first, execute_on_open=True)
+        else:
+            conn.open()
         for op in sc.ops:
             res.unread_before.append(bytes(t.buf))
+            if op[0] == "reopen":
+                reopen()
+                conn.open()
+                res.op_results.append(("REOPENED", b"", False, ""))
+                continue
             if op[0] == "abandon":
-                dev.withhold = (op[1].strip(), op[2])
+                dev.withhold = (op[1].strip(), op[2], *((op[3].encode("latin1"),) if len(op) > 3 else ()))
                 try:
                     conn.send_command(op[1])
                 except SimStall:
@@ -388,6 +441,8 @@ def model_request(sc: Scenario, res: RunResult) -> Optional[str]:
         prx = rx(res.prompt_pattern.encode(), flags)
     except RxUnsupported:
         return None
+    if sc.commandeer or any(op[0] == "reopen" for op in sc.ops):
+        return None      # two driver objects / two sessions on one object: judged by the oracle
     if res.abandoned:
         return None      # an operation given up midway: judged by the oracle on the following operations, not replayed on the model
     ops, table = [], {}
